@@ -186,7 +186,26 @@ func Matrix(full bool) []*Schema {
 		{Num: 1, IsMsg: true, Msg: 12, Shape: Map, Key: Int32},
 		{Num: 2, Kind: Int32, Shape: Singular},
 	}}
-	s.Msgs = []Msg{m0, m1, m2, m3, m4, m5, m6, m7, m8, m9, m10, m11, m12}
+	// M13: every length-delimited construct behind 4- and 5-byte keys (the size of "key + prefix + payload" is where
+	// a prefix computed over the wrong quantity shows, and only at payload sizes next to 128 / 16384)
+	m13 := Msg{Name: "M13", Fields: []Field{
+		{Num: 300001, Kind: Float, Shape: Repeated, Packed: true},
+		{Num: 300002, Kind: Sfixed32, Shape: Repeated, Packed: true},
+		{Num: 300003, Kind: Double, Shape: Repeated, Packed: true},
+		{Num: 300004, Kind: Int64, Shape: Repeated, Packed: true},
+		{Num: 300005, Kind: String, Shape: Singular},
+		{Num: 300006, Kind: Bytes, Shape: Repeated},
+		{Num: 300007, IsMsg: true, Msg: 13, Shape: Singular},
+		{Num: 300008, Kind: Bytes, Shape: Map, Key: String},
+		{Num: 40000001, Kind: Fixed32, Shape: Repeated, Packed: true},
+		{Num: 40000002, Kind: Bool, Shape: Repeated, Packed: true},
+		{Num: 40000003, Kind: String, Shape: Oneof, Group: 0},
+		{Num: 40000004, IsMsg: true, Msg: 13, Shape: Oneof, Group: 0},
+		{Num: 40000005, IsMsg: true, Msg: 13, Shape: Repeated},
+		{Num: 40000006, IsMsg: true, Msg: 13, Shape: Map, Key: Uint32},
+		{Num: 7, Kind: Sfixed64, Shape: Repeated, Packed: true},
+	}}
+	s.Msgs = []Msg{m0, m1, m2, m3, m4, m5, m6, m7, m8, m9, m10, m11, m12, m13}
 	out := []*Schema{s}
 	if full {
 		// every key kind x every value kind (+ message), 3 schemas to keep packages small
